@@ -364,9 +364,9 @@ func (g *c02) sshline(tag string, data []byte, spec Sx) {
 	}
 }
 
-func (g *c02) knownhosts(tag string, line []byte, spec Sx) {
-	var lo Sx
-	so := Sx(SL{I(0), S("")})
+// the library's split of one known_hosts line and its verdict on the key blob
+func khOracle(line []byte) (lo, so Sx) {
+	so = Sx(SL{I(0), S("")})
 	if len(bytes.TrimSpace(line)) == 0 {
 		lo = SL{I(0)}
 	} else if _, hosts, pk, comment, _, err := ssh.ParseKnownHosts(line); err != nil {
@@ -380,6 +380,22 @@ func (g *c02) knownhosts(tag string, line []byte, spec Sx) {
 		lo = SL{I(2), hl, SB(blob), S(comment)}
 		so = sshOracle(blob)
 	}
+	return
+}
+
+// a known_hosts file of several well-formed lines, each with its own expectation
+func (g *c02) khfile(tag string, lines [][]byte, specs []Sx) {
+	per := SL{}
+	for i, l := range lines {
+		lo, so := khOracle(l)
+		per = append(per, SL{lo, so, specs[i]})
+	}
+	data := append(bytes.Join(lines, []byte("\n")), '\n')
+	g.c.Emit("khfile:"+tag, SL{SB(data), per}, infoObs(func() (file.Info, error) { return file.SSHKnownHosts(file.Info{}, data) }))
+}
+
+func (g *c02) knownhosts(tag string, line []byte, spec Sx) {
+	lo, so := khOracle(line)
 	in := SL{SB(line), lo, so, spec}
 	g.c.Emit("knownhosts:"+tag, in, infoObs(func() (file.Info, error) { return file.SSHKnownHosts(file.Info{}, line) }))
 	if len(spec.(SL)) > 0 {
